@@ -121,7 +121,7 @@ def scan_repo(root):
         if isinstance(e, ast.BinOp) and isinstance(e.op, (ast.BitOr, ast.BitAnd, ast.Sub, ast.BitXor)):
             return settyped(e.left, local) or settyped(e.right, local)
         if isinstance(e, ast.Name):
-            return e.id in local or e.id in GLOBAL or e.id.endswith("_set")
+            return (e.id in local or e.id in GLOBAL or e.id.endswith("_set")) and e.id not in NOTSET[-1]
         if isinstance(e, ast.Attribute):
             return e.attr in GLOBAL or e.attr in local
         if isinstance(e, ast.Subscript):
@@ -131,6 +131,7 @@ def scan_repo(root):
         return False
 
     LOCAL_DOS = [set()]
+    NOTSET = [set()]     # locals of the function at hand that are annotated with / bound to something that is not a set
     sites = []
     def _is_id_call(e):
         return isinstance(e, ast.Call) and isinstance(e.func, ast.Name) and e.func.id == "id" and len(e.args) == 1
@@ -170,6 +171,14 @@ def scan_repo(root):
                             if isinstance(t, ast.Name):
                                 ldos.add(t.id)
                 LOCAL_DOS.append(ldos | LOCAL_DOS[-1])
+                notset = set()
+                for m in ast.walk(n):       # x: dict[...] = {} / x: list[...] = [] ... : the annotation of a local decides
+                    if isinstance(m, ast.AnnAssign) and isinstance(m.target, ast.Name) and not _is_set_ann(m.annotation):
+                        notset.add(m.target.id)
+                for m in ast.walk(n):       # ... unless the same name is also bound to a set somewhere in the function
+                    if isinstance(m, ast.AnnAssign) and isinstance(m.target, ast.Name) and _is_set_ann(m.annotation):
+                        notset.discard(m.target.id)
+                NOTSET.append(notset)
                 for m in ast.walk(n):       # for k, v in d.items() / for v in d.values()  with d a dict of sets
                     gens = [m] if isinstance(m, ast.For) else getattr(m, "generators", []) if isinstance(
                         m, (ast.ListComp, ast.SetComp, ast.DictComp, ast.GeneratorExp)) else []
@@ -191,7 +200,7 @@ def scan_repo(root):
                         if isinstance(m, ast.AnnAssign) and isinstance(m.target, ast.Name) and (
                                 _is_set_ann(m.annotation) or (m.value is not None and settyped(m.value, loc | s.local[-1]))):
                             loc.add(m.target.id)
-                s.local.append(loc | s.local[-1]); s.generic_visit(n); s.local.pop(); s.stack.pop(); LOCAL_DOS.pop()
+                s.local.append(loc | s.local[-1]); s.generic_visit(n); s.local.pop(); s.stack.pop(); LOCAL_DOS.pop(); NOTSET.pop()
             visit_AsyncFunctionDef = visit_FunctionDef
 
             def add(s, kind, n, e):
